@@ -1,7 +1,7 @@
 """
 Correspondence of the Lean resampling model (Model/Resample.lean) with GDAL as called through
-RasterArray.reproject: average (down-sampling), nearest and bilinear (up-sampling), on north-up same-CRS grids whose
-destination lies inside the source array (as homonim arranges by expanded, NaN-padded reads).
+RasterArray.reproject: average (down-sampling), nearest, bilinear, cubic and cubic_spline (up-sampling; Model/Cubic.lean),
+on north-up same-CRS grids whose destination lies inside the source array (as homonim arranges by expanded, NaN-padded reads).
 Masks must agree exactly, values to 2e-5 relative.
 """
 from fractions import Fraction
@@ -74,8 +74,8 @@ def gen(rng, method):
     return sg, dg, arr, valid, kind
 
 
-def check_resampler(run: common.Run, n, methods=('average', 'nearest', 'bilinear'), base=500_000):
-    cases, lines, impls = [], [], []
+def check_resampler(run: common.Run, n, methods=('average', 'nearest', 'bilinear', 'cubic_spline', 'cubic'), base=500_000):
+    cases, lines, impls, sgs, valids = [], [], [], {}, {}
     for k in range(n):
         rng = run.rng(f'resamp{k}')
         method = methods[k % len(methods)]
@@ -89,6 +89,8 @@ def check_resampler(run: common.Run, n, methods=('average', 'nearest', 'bilinear
         run.evaluations += 1
         run.hist[f'resampler:{method}'] += 1
         cases.append(case)
+        sgs[id(case)] = sg
+        valids[id(case)] = valid
         lines.append(model_resample_line(method, sg, dg, arr, valid))
         impls.append((out, dg))
     replies = common.model_batch(lines)
@@ -104,6 +106,11 @@ def check_resampler(run: common.Run, n, methods=('average', 'nearest', 'bilinear
             run.disagree(case, line[:160], f'valid={bool(mm[tuple(bad)])} at {bad}', f'valid={bool(im[tuple(bad)])}',
                          what=f'resampler validity ({case["method"]})')
             continue
+        if case['method'] == 'cubic' and rasters.noisy_edges('dyadic', sgs[id(case)].px, dg.px):
+            # a destination centre exactly on a source centre: which four pixels are "the" support is decided by float
+            # noise where the pixel arithmetic is inexact, and with it cubic's fall-back to bilinear next to invalid pixels
+            mm = mm & ~(centre_centre_tie_mask(sgs[id(case)], dg) & near_invalid(sgs[id(case)], dg, valids[id(case)], 2))
+            run.hist['resampler:cubic centre-on-centre pixels on inexact grids: next to invalid pixels: value not compared'] += int((~mm & im).sum())
         if mm.any():
             rel = np.max(np.abs(m[mm] - out[mm]) / np.maximum(np.abs(m[mm]), 1.0))
             if rel > 2e-5:
@@ -120,3 +127,27 @@ def centre_tie_mask(og, pg):
     for (so, sp, sn), (do, dp, dn) in ((og.row_axis, pg.row_axis), (og.col_axis, pg.col_axis)):
         ties.append(np.array([(2 * (do - so) + dp * (2 * j + 1)) % (2 * sp) == 0 for j in range(dn)], bool))
     return ties[0][:, None] | ties[1][None, :]
+
+
+def centre_centre_tie_mask(og, pg):
+    """(pg.h, pg.w) bool: the centre of the `pg` pixel lies exactly on the centre of an `og` pixel along an axis"""
+    import numpy as np
+    ties = []
+    for (so, sp, sn), (do, dp, dn) in ((og.row_axis, pg.row_axis), (og.col_axis, pg.col_axis)):
+        ties.append(np.array([(2 * (do - so) + dp * (2 * j + 1) - sp) % (2 * sp) == 0 for j in range(dn)], bool))
+    return ties[0][:, None] | ties[1][None, :]
+
+
+def near_invalid(og, pg, valid, reach):
+    """(pg.h, pg.w) bool: an invalid or missing `og` pixel lies within `reach` pixels of the `og` pixel containing the centre"""
+    import numpy as np
+    pad = np.zeros((og.h + 2 * reach, og.w + 2 * reach), bool)
+    pad[reach:-reach, reach:-reach] = valid
+    allv = np.ones((og.h, og.w), bool)
+    for dy in range(2 * reach + 1):
+        for dx in range(2 * reach + 1):
+            allv &= pad[dy:dy + og.h, dx:dx + og.w]
+    idx = []
+    for (so, sp, sn), (do, dp, dn) in ((og.row_axis, pg.row_axis), (og.col_axis, pg.col_axis)):
+        idx.append(np.clip(np.array([(2 * (do - so) + dp * (2 * j + 1)) // (2 * sp) for j in range(dn)]), 0, sn - 1))
+    return ~allv[np.ix_(idx[0], idx[1])]
